@@ -70,6 +70,10 @@ enum Step {
     Adv(u64),
     DeliverAll,
     MSet(u32),
+    /// client back-pressure at the node: the next call of this kind is parked by the client
+    Park(String),
+    /// back-pressure ends: every parked call of the node's client is accepted
+    Res,
 }
 
 impl Step {
@@ -97,6 +101,8 @@ impl Step {
             Step::Adv(ms) => format!("adv{}", ms),
             Step::DeliverAll => "da".into(),
             Step::MSet(k) => format!("mset{}", k),
+            Step::Park(k) => format!("pk:{}", k),
+            Step::Res => "res".into(),
         }
     }
 
@@ -110,8 +116,14 @@ impl Step {
             "nrb" => Step::NRebirth,
             "hold" => Step::Hold,
             "da" => Step::DeliverAll,
+            "res" => Step::Res,
             _ => {
-                if let Some(r) = s.strip_prefix("pn:") {
+                if let Some(k) = s.strip_prefix("pk:") {
+                    if !["NBIRTH", "DBIRTH", "NDATA", "DDATA", "DDEATH"].contains(&k) {
+                        return None;
+                    }
+                    Step::Park(k.to_string())
+                } else if let Some(r) = s.strip_prefix("pn:") {
                     let (m, n) = r.split_once(':')?;
                     Step::PubNode(m.to_string(), n.parse().ok()?)
                 } else if let Some(r) = s.strip_prefix("pd") {
@@ -182,6 +194,8 @@ impl Step {
             Step::Adv(_) => "time-passes",
             Step::DeliverAll => "deliver-all",
             Step::MSet(_) => "metric-set-change",
+            Step::Park(_) => "client-parks-a-call",
+            Step::Res => "parked-calls-released",
         }
     }
 }
@@ -862,6 +876,10 @@ impl World {
                 }
             }
             Step::DeliverAll => self.deliver_all(out),
+            Step::Park(k) => {
+                self.eon_line(out, &format!("rule {} park 1", k), None);
+            }
+            Step::Res => self.release_parked(out),
             Step::MSet(k) => {
                 self.mset_used = true;
                 let obs = self.eon_line(out, &format!("rule mset {}", k), None);
@@ -1041,6 +1059,21 @@ impl World {
         Ok(())
     }
 
+    /// the node's client accepts every call it had parked (oldest first)
+    fn release_parked(&mut self, out: &mut Out) {
+        for _ in 0..64 {
+            let ids = self.hub_a.parked_ids();
+            match ids.first() {
+                Some(id) if !self.dead => {
+                    self.eon_line(out, &format!("resolve {} ok", id), None);
+                }
+                _ => break,
+            }
+        }
+        // rules that never matched a call end with the faults
+        self.hub_a.clear_rules();
+    }
+
     /// Fault-free settling: both connections up; per round: deliver everything FIFO, let the
     /// reorder timeout pass, deliver, the node publishes one fresh value per live object, deliver.
     /// Nothing else is done (no operator action). Returns the number of rounds used.
@@ -1056,6 +1089,7 @@ impl World {
             if self.dead {
                 return round;
             }
+            self.release_parked(out);
             self.deliver_all(out);
             let to = self.to + 1;
             self.host_line(out, &format!("adv {}", to), None, to, None);
@@ -1136,6 +1170,8 @@ fn random_case(out: &mut Out, rng: &mut Rng, len_lo: u64, len_hi: u64) -> (Cfg, 
     // a third of the cases change the metric set between births; half of those with strict stores
     let msets = rng.chance(1, 3);
     let cfg = Cfg { to, strict: msets && rng.chance(1, 2) };
+    // a quarter of the other cases put back-pressure on the node's client
+    let parks = !msets && rng.chance(1, 4);
     let mut w = World::begin(out, cfg);
     let mut steps: Vec<Step> = vec![];
     let mut go = |w: &mut World, out: &mut Out, steps: &mut Vec<Step>, s: Step| {
@@ -1227,6 +1263,8 @@ fn random_case(out: &mut Out, rng: &mut Rng, len_lo: u64, len_hi: u64) -> (Cfg, 
             93..=93 => Step::DRebirth(d),
             94..=95 => Step::Adv(*rng.pick(&[1, to / 2, to - 1, to + 1])),
             96..=99 if msets => Step::MSet(rng.range(0, eon::MSET_MAX as u64) as u32),
+            96..=97 if parks => Step::Park(rng.pick(&["DBIRTH", "DBIRTH", "NBIRTH", "DDATA", "NDATA", "DDEATH"]).to_string()),
+            98..=99 if parks => Step::Res,
             _ => {
                 // fall-backs of the guarded arms: ordinary traffic
                 if rng.chance(1, 2) {
@@ -1259,6 +1297,8 @@ fn scripts() -> Vec<(&'static str, String, &'static str)> {
     let v: Vec<(&'static str, &str, &'static str)> = vec![
         ("k2-session-confusion-loss-only", "to=3000 | non pn:blk:1 pn:blk:1 reg1 en1 dl0 drop0 nrb drop0 dis1 drop1 pn:blk:1 drop3 da", "KNOWN FINDING K2. FIFO delivery, QoS-0 loss only: two NDATA of the first birth, the NBIRTH of the manual rebirth and one NDATA of the second birth are lost; the DBIRTH (seq 3) of the first birth is then released after the DBIRTH/DDEATH (seq 1, 2) of the second: the host is in step with the node for good and holds the disabled device birthed"),
         ("k2-session-confusion-metric-set", "to=3000 | non da mset1 nrb drop0 da", "KNOWN FINDING K2. the rebirth NBIRTH (QoS 0) is lost when nothing else was sent in the old birth: sequence numbers line up, a lenient store cannot notice the new metric set"),
+        ("dbirth-parked-across-connection-loss", "to=3000 | reg1 en1 pk:DBIRTH non noff res da non da", "client back-pressure: the device's DBIRTH is still pending in the client when the connection is lost; it is accepted afterwards; the next session must announce the device again"),
+        ("nbirth-parked-then-released", "to=3000 | reg1 en1 pk:NBIRTH non pn:try:1 res da", "client back-pressure on the NBIRTH: nothing may be published before it is accepted"),
         ("bdseq-255-session", &bdseq_255, "the node's 256th session carries bdSeq 255, the last value before the wrap: the host must hold it birthed like any other"),
         ("bdseq-wraps-through-255", &bdseq_wrap, "a long history: the node reconnects 256 times, so its sessions carry every bdSeq value including 255 and the wrap to 0; each NBIRTH and each will must be accepted by the host"),
         ("reorder-timeout-fires-during-node-lines", &timer_in_node_lines, "a gap opens at the host, then the node publishes 55 times (55 node lines = 55 ms) with nothing delivered: the 50 ms reorder timer fires while a node line runs; the `host adv` line that reports those milliseconds to the host model carries the stale + NCMD effects"),
